@@ -4,7 +4,7 @@
     model and the specification, never a proof file. *)
 From Coq Require Import String.
 From Coq Require Import List Ascii ZArith Bool.
-From CGV Require Import Base.PyBase Base.PyVal Dialect.DialectImpl Frag.NDict Frag.StripImpl Frag.FragText Frag.FragTextX Frag.SmilesParse Frag.Template Frag.TemplateFinal.
+From CGV Require Import Base.PyBase Base.PyVal Dialect.DialectImpl Frag.NDict Frag.StripImpl Frag.FragText Frag.FragTextX Frag.SmilesParse Frag.Template Frag.TemplateFinal Frag.TemplateChiral.
 Import ListNotations.
 
 (** what the implementation did: the class name of the exception, or the four returned values *)
@@ -56,11 +56,10 @@ Definition ezkeys_eqb (a b : list (option nat * ascii)) : bool :=
 Fixpoint attrs_list_eqb (a b : list attrs) : bool :=
   match a, b with [], [] => true | x :: a', y :: b' => attrs_eqb x y && attrs_list_eqb a' b' | _, _ => false end.
 
-(** the final template of fragment_iter against TemplateFinal.v: every node attribute except
-    rs_isomer (rewritten by pysmiles' stereo post-processing) and the parser's book-keeping keys
-    _atom_str / _pos (dropped by the harness), and the bonds with their orders *)
-Definition drop_keys (a : attrs) : attrs :=
-  filter (fun kv => negb (str_eqb (fst kv) (S "rs_isomer"))) a.
+(** the final template of fragment_iter against TemplateFinal.v + TemplateChiral.v: every node
+    attribute (rs_isomer included: the neighbour tuple of pysmiles' stereo post-processing) except the
+    parser's book-keeping keys _atom_str / _pos (dropped by the harness), and the bonds with their orders *)
+Definition drop_keys (a : attrs) : attrs := a.
 Definition tmpl_obs := (list (nat * attrs) * list (nat * nat * pyval))%type.
 Definition template_agrees (T : tmpl) (o : tmpl_obs) : bool :=
   let '(nodes, edges) := o in
@@ -84,7 +83,7 @@ Definition corr_ok (c : case) : bool :=
   | CTemplate name text fo impl =>
       match impl with
       | None => true            (* the implementation raised after the modelled stage: no claim *)
-      | Some o => match fragment_template_final (fo_of_table fo) name text with Ok T => template_agrees T o | Err _ => false end
+      | Some o => match fragment_template_final_rs (fo_of_table fo) name text with Ok T => template_agrees T o | Err _ => false end
       end
   | CSmiles text base full =>
       (match base_smiles_parser text, base with
